@@ -654,6 +654,10 @@ func TestVerif_C07_h1hostile(t *testing.T) {
 	cpu := c07IdleCPU()
 	s.Observe("idle-cpu", cpu < 600*time.Millisecond, "", true, "process CPU time during 1 s of idleness after the run", fmt.Sprintf("a goroutine is spinning: %v CPU in 1 s idle", cpu))
 	s.Observe("goroutines", g1 <= g0+8, "", true, fmt.Sprintf("goroutines before=%d after=%d", g0, g1), fmt.Sprintf("goroutines leaked: before=%d after=%d", g0, g1))
+	peer.closeAll()
+	stuck, where := c07StuckLoops("(*persistConn).readLoop", "(*persistConn).writeLoop")
+	s.Observe("stuck-h1-loops", stuck == 0, "", true, fmt.Sprintf("HTTP/1.1 connection loops still alive after every connection was closed: %d", stuck),
+		fmt.Sprintf("%d HTTP/1.1 read/write loop goroutines are stuck after every connection was closed by the peer and idle connections were closed, e.g.:\n%s", stuck, where))
 	s.Finish()
 }
 
